@@ -14,7 +14,8 @@ LEVEL = "exploration"
 SHARDS = 16
 RULE = ("every (rows, n, i) with rows in the listed range, n in 1..64 and every band i < n on images whose pixel "
         "value is its row number; input kinds 2-D/3-D/4-D/BSCALE float/BSCALE int16/compressed on a slice of "
-        "row counts; invalid specs; non-trivial = a (rows, n) pair with n >= 2 (more than one band); distinct = "
+        "row counts; invalid specs; histories: one path rewritten with another image (2-D, cube, compressed; other size) between "
+        "loads of one process, every ordered pair of six images (A, B, A); non-trivial = a (rows, n) pair with n >= 2 (more than one band); distinct = "
         "distinct (kind, rows, n)")
 ASSUMPTIONS = ["the 'full image' is what astropy returns for the file (physical values, BSCALE applied); for a "
                "compressed file it is fits_tools.expand of the file",
@@ -44,6 +45,9 @@ def cases(tier, seed):
         for r in krows:
             yield "kinds", dict(kind=k, rows=r)
     yield "invalid", dict()
+    # histories: ONE path rewritten with another image between loads of one process; every ordered pair of HIST
+    for a in range(len(HIST)):
+        yield "history", dict(first=a)
 
 
 def _header(rows, cols, seed):
@@ -115,7 +119,7 @@ def _check_bands(fname, full, full_hdr, ctx, tag, ns, cube_index=0):
             ok = False
         if n >= 2:
             ctx.nontrivial("%s,%d,%d" % (tag, rows, n))
-        ctx.outcome("%s:%s" % (tag, "ok" if ok else "bad"))
+        ctx.outcome("%s:%s" % (tag.split(":")[0], "ok" if ok else "bad"))
 
 
 def ev_tiling_2d(case, ctx):
@@ -189,6 +193,47 @@ def ev_kinds(case, ctx):
         os.remove(f)
 
 
+HIST = [("2d", 12), ("2d", 30), ("compressed", 12), ("compressed", 31), ("3d", 12), ("2d", 5)]
+
+
+def ev_history(case, ctx):
+    d = os.environ["VERIF_SCRATCH"]
+    f = os.path.join(d, "hist.fits")
+    cols = 6
+
+    def put(kind, rows):
+        """(re)write f; returns (full image the bands must tile, its header, cube_index)"""
+        base = (np.arange(rows, dtype=np.float32)[:, None] * 4 + np.arange(cols, dtype=np.float32)[None, :] * 0.25) + rows
+        hdr = _header(rows, cols, ctx.seed)
+        if kind == "3d":
+            _write(f, np.stack([base, base + 1000]), hdr)
+            return base + 1000, hdr, 1
+        if kind == "2d":
+            _write(f, base, hdr)
+            return base, hdr, 0
+        tmp = f + ".full.fits"
+        _write(tmp, base, hdr)
+        fits_tools.compress(tmp, 2, outfile=f)
+        os.remove(tmp)
+        ex = fits_tools.expand(fits.open(f))
+        return np.array(ex[0].data), dict(ex[0].header), 0
+    a = case["first"]
+    for b in range(len(HIST)):
+        if b == a:
+            continue
+        for step, k in enumerate((a, b, a)):
+            kind, rows = HIST[k]
+            tag = "history:%s%d_then_%s%d,step%d" % (HIST[a] + HIST[b] + (step,))
+            try:
+                full, fh, ci = put(kind, rows)
+            except Exception as e:
+                ctx.violation("writing %s image raised %r (%s)" % (kind, e, tag), "history_raise|" + tag)
+                continue
+            _check_bands(f, full, fh, ctx, tag, [1, 3, 4], cube_index=ci)
+    if os.path.exists(f):
+        os.remove(f)
+
+
 def ev_invalid(case, ctx):
     d = os.environ["VERIF_SCRATCH"]
     f = os.path.join(d, "inv.fits")
@@ -209,7 +254,7 @@ def ev_invalid(case, ctx):
     os.remove(f)
 
 
-CLAUSES = dict(tiling_2d=ev_tiling_2d, kinds=ev_kinds, invalid=ev_invalid)
+CLAUSES = dict(history=ev_history, tiling_2d=ev_tiling_2d, kinds=ev_kinds, invalid=ev_invalid)
 
 
 def evaluate(clause, case, ctx):
